@@ -1665,3 +1665,18 @@ func ifaceMeasureIter(i *Iter) int {
 //@   ensures frombuf: implies(result1 == nil && offset&STRINGBUFBIT != 0, len(result0) == int(length) && forall(0, int(length), func(k int) bool { return result0[k] == pj.Strings.B[int(offset&STRINGBUFMASK)+k] }))
 //@   ensures noresult: implies(result1 != nil, len(result0) == 0)
 //@   safe
+
+// The string accessors: a string is handed out exactly for TagString entries whose length word is on the tape, it is
+// what stringByteAt returns for (payload, length word), hence of the recorded length; every other tag is refused.
+//@ func (*Iter).StringBytes variant value
+//@   props C02
+//@   requires iterOK(i) && i.tape.Strings != nil
+//@   ensures gate: implies(i.t != TagString || i.off >= len(i.tape.Tape), result1 != nil && len(result0) == 0)
+//@   ensures len: implies(result1 == nil, i.t == TagString && len(result0) == int(i.tape.Tape[i.off]))
+//@   assertafter `i.tape.stringByteAt(i.cur, i.tape.Tape[i.off])` args: i.t == TagString && i.off < len(i.tape.Tape)
+
+//@ func (*Iter).String variant value
+//@   props C02
+//@   requires iterOK(i) && i.tape.Strings != nil
+//@   ensures gate: implies(i.t != TagString || i.off >= len(i.tape.Tape), result1 != nil && len(result0) == 0)
+//@   ensures len: implies(result1 == nil, i.t == TagString && len(result0) == int(i.tape.Tape[i.off]))
